@@ -233,6 +233,18 @@ func runC13(c *core.Ctx) {
 		// two files for exclude lists with a negated pattern (nothing links to them)
 		os.WriteFile(filepath.Join(tree, "logs-keep.log"), []byte("kept by a negated pattern\n"), 0644)
 		os.WriteFile(filepath.Join(tree, "logs-drop.log"), []byte("dropped\n"), 0644)
+		if i%2 == 1 {
+			// a directory that is also reachable through a directory symlink, with a sub-directory below
+			// it (for strip prefixes that reach below the symlink)
+			if os.MkdirAll(filepath.Join(tree, "store", "out"), 0755) == nil &&
+				os.WriteFile(filepath.Join(tree, "store", "out", "app.bin"), []byte("application\n"), 0644) == nil &&
+				os.Symlink("store", filepath.Join(tree, "ws-build")) == nil {
+				info.DirLinks++
+				info.Files++
+				info.Dirs = append(info.Dirs, "store", "store/out")
+				info.FilePaths = append(info.FilePaths, "store/out/app.bin")
+			}
+		}
 		os.Chdir(tree)
 		for v := 0; v < c.Pick(6, 10); v++ {
 			id := fmt.Sprintf("record/%d/%d", i, v)
@@ -317,6 +329,15 @@ func runC13(c *core.Ctx) {
 				// (git) and under "a negated match always wins" (the pattern library in use) alike. The
 				// other order, on which the two readings differ, is not generated.
 				k.Opts.Exclude = []string{"*.log", "!logs-keep.log"}
+			}
+			if v == 3 && i%2 == 1 {
+				// a strip prefix that reaches below a followed directory symlink: the file is recorded once
+				// under its real path and once, stripped, as seen through the symlink
+				k.Paths, k.Opts.FollowDirs, k.Opts.Exclude = []string{"."}, true, nil
+				k.Opts.Strip = []string{"ws-build/out/"}
+				if i%4 == 3 {
+					k.Opts.Strip = []string{"ws-build/out/", "ws-build/"}
+				}
 			}
 			if collide && v == 0 {
 				// the option set that makes the pair collide
@@ -608,7 +629,7 @@ func init() {
 	core.Register(&core.Property{
 		ID:    "C13",
 		Level: "exploration",
-		Rule: "seeded real directory trees (depth<=4, <=40 entries; names with a backslash next to a look-alike directory; empty, binary, CR/LF/CRLF-mixed files, in a fifth of the trees a 150 KB text file whose CR LF pairs straddle 512 B ... 128 KiB block boundaries; file symlinks relative and absolute, directory symlinks, chains, two routes to one file, self/mutual loops, ancestor links, link to the root, dangling links; same-named files in different directories, in a third of the trees a regular file and a file symlink that collide once two prefixes are stripped - the regular one visited first) x 6-10 option sets each (11 algorithm lists incl. unknown, empty and repeated names, normalisation, follow-directory-symlinks, exclude {none, *.tmp, one basename, several, *.log followed by a negated pattern for one of two .log files, one file by its relative path - with and without its directory as strip prefix}, paths {., absolute root, directory+file, single file, missing path}, strip {none, root, one directory, several nested/colliding prefixes}) through RecordArtifacts; per tree also InTotoRun with a command that creates/modifies/deletes files and replaces one by other content of the same size with its modification time restored, InTotoRecordStart/Stop with changes in between, InTotoMatchProducts after local tampering (some link products listed with fewer algorithms than requested or with none); one worker runs as uid 65534 and makes every file and directory of a tree unreadable in turn (real EACCES; fault enumeration over the tree). Oracle = reference recorder (harness/ref/record.go). " +
+		Rule: "seeded real directory trees (depth<=4, <=40 entries; names with a backslash next to a look-alike directory; empty, binary, CR/LF/CRLF-mixed files, in a fifth of the trees a 150 KB text file whose CR LF pairs straddle 512 B ... 128 KiB block boundaries; file symlinks relative and absolute, directory symlinks, chains, two routes to one file, self/mutual loops, ancestor links, link to the root, dangling links; same-named files in different directories, in a third of the trees a regular file and a file symlink that collide once two prefixes are stripped - the regular one visited first) x 6-10 option sets each (11 algorithm lists incl. unknown, empty and repeated names, normalisation, follow-directory-symlinks, exclude {none, *.tmp, one basename, several, *.log followed by a negated pattern for one of two .log files, one file by its relative path - with and without its directory as strip prefix}, paths {., absolute root, directory+file, single file, missing path}, strip {none, root, one directory, several nested/colliding prefixes, a prefix that reaches below a followed directory symlink}) through RecordArtifacts; per tree also InTotoRun with a command that creates/modifies/deletes files and replaces one by other content of the same size with its modification time restored, InTotoRecordStart/Stop with changes in between, InTotoMatchProducts after local tampering (some link products listed with fewer algorithms than requested or with none); one worker runs as uid 65534 and makes every file and directory of a tree unreadable in turn (real EACCES; fault enumeration over the tree). Oracle = reference recorder (harness/ref/record.go). " +
 			"non-trivial = tree has >=2 files and a symlink, CR content, strip or exclude; distinct = (tree number, option set)",
 		Assumptions: []string{
 			"exclude patterns are limited to *.<ext>, plain basenames and the spelled-out relative path of one file (only when the current directory is recorded and the tree has no symlinks: how a pattern applies to what is reached through a symlink is outside the statement); directories and symlink targets are never named so that they match; symlinks whose own name matches (a0-link.tmp, a1-dirlink.tmp, sorting before their siblings) are generated: they are skipped as a whole and nothing else is (go-pathspec matches the whole walked path and does not prune excluded directories - outside the statement)",
